@@ -99,7 +99,7 @@ func VerifH_C12_unary_precedence() {
 
 // numeral spellings denote the same number (decimal / hex / float forms)
 func VerifH_C12_literal_spellings() {
-	k := verifChoose("case", 8)
+	k := verifChoose("case", 14)
 	var s1, s2 string
 	switch k {
 	case 0:
@@ -118,6 +118,19 @@ func VerifH_C12_literal_spellings() {
 		s1, s2 = "0xffffffffffffffff", "-1" // hex wraps modulo 2^64
 	case 7:
 		s1, s2 = ".5", "0.5"
+	// operators applied to literals bind as they do to any other operand
+	case 8:
+		s1, s2 = "-2^2", "-(2^2)"
+	case 9:
+		s1, s2 = "2^-2^2", "2^(-(2^2))"
+	case 10:
+		s1, s2 = "-0x2^2", "-(0x2^2)"
+	case 11:
+		s1, s2 = "-2.5^2", "-(2.5^2)"
+	case 12:
+		s1, s2 = "- 3 // 2", "(-3) // 2"
+	case 13:
+		s1, s2 = "~1 << 2", "(~1) << 2"
 	}
 	r1, f1 := vhOutcome("return "+s1, NilValue, NilValue, NilValue)
 	r2, f2 := vhOutcome("return "+s2, NilValue, NilValue, NilValue)
